@@ -509,8 +509,9 @@ emitted combinators: `SqiModel.FpRefSem`).  `generated = hand model` (`SqiProofs
 them the chain is C text → generated definition → value-level model → `ZMod p` theorems, over the fiat primitives which are
 themselves translation + proof (`fiat_layer_refines_model_lvl*`).  Narrowing the accumulator of `fp_is_zero` to `uint32_t`, changing a
 loop bound, a mask or a call changes the generated text and these proofs stop building.
-Translated but NOT yet proved equal to the model (still tied by correspondence only): `fp_cswap`, `fp_neg` (SUBC borrow loop),
-`fp_sqrt` (uses `fp_neg`).  Not translated: `fp_copy`, `fp_encode`, `fp_decode`, `fp_decode_reduce` (byte buffers). -/
+All thirteen translated functions are proved.  Not translated (still hand models tied by correspondence): `fp_copy` (memcpy),
+`fp_encode`, `fp_decode`, `fp_decode_reduce` with `enc64le`/`dec64le` (byte buffers).  Read, not translated: the helpers of mp.h
+(`is_digit_zero_ct`, `is_digit_lessthan_ct`, macro `SUBC`, `mp_shiftr` by one bit) — stated in `SqiModel.FpRefSem` as what they compute. -/
 theorem ref_composites_generated_eq_model {P : RefParams} (hL : IsLevel P) :
     (∀ a, a < P.R → SqiGen.FpRef.fp_is_zero P a = Ref.fp_is_zero a) ∧
     (∀ a b, a < P.R → b < P.R → SqiGen.FpRef.fp_is_equal P a b = Ref.fp_is_equal a b) ∧
@@ -521,14 +522,19 @@ theorem ref_composites_generated_eq_model {P : RefParams} (hL : IsLevel P) :
     (∀ out a, SqiGen.FpRef.fp_exp3div4 P out a = Ref.fp_exp3div4 P a) ∧
     (∀ a, SqiGen.FpRef.fp_inv P a = Ref.fp_inv P a) ∧
     (∀ out a, SqiGen.FpRef.fp_half P out a = Ref.fp_half P a) ∧
-    (∀ a, a < P.p → SqiGen.FpRef.fp_is_square P a = Ref.fp_is_square P a) := by
+    (∀ a, a < P.p → SqiGen.FpRef.fp_is_square P a = Ref.fp_is_square P a) ∧
+    (∀ a b ctl, a < P.R → b < P.R → SqiGen.FpRef.fp_cswap P a b ctl = Ref.fp_cswap P a b ctl) ∧
+    (∀ out a, a < P.R → SqiGen.FpRef.fp_neg P out a = Ref.fp_neg P a) ∧
+    (∀ a, a < P.p → SqiGen.FpRef.fp_sqrt P a = Ref.fp_sqrt P a) := by
   have := hL.prime
   have hV := hL.valid
   exact ⟨SqiProofs.FpRefGen.fp_is_zero_eq P, SqiProofs.FpRefGen.fp_is_equal_eq P,
     fun d a0 a1 ctl => SqiProofs.FpRefGen.fp_select_eq P d a0 a1 ctl, SqiProofs.FpRefGen.fp_set_zero_eq P,
     SqiProofs.FpRefGen.fp_set_one_eq P, fun x v hx => SqiProofs.FpRefGen.fp_set_small_eq P hV.hn x v hx,
     SqiProofs.FpRefGen.fp_exp3div4_eq P, SqiProofs.FpRefGen.fp_inv_eq P,
-    SqiProofs.FpRefGen.fp_half_eq hV, SqiProofs.FpRefGen.fp_is_square_eq hV⟩
+    SqiProofs.FpRefGen.fp_half_eq hV, SqiProofs.FpRefGen.fp_is_square_eq hV,
+    fun a b ctl => SqiProofs.FpRefGen.fp_cswap_eq P a b ctl, SqiProofs.FpRefGen.fp_neg_eq P hV,
+    SqiProofs.FpRefGen.fp_sqrt_eq hV⟩
 
 /-! ## x86 ("broadwell") back-end, value-level model `SqiModel.GfX86`
 
